@@ -138,6 +138,12 @@ def pFollow (p : PSt) (before after : Int) : Option PSt :=
   if after > before then (if p.pfreed then none else some (pInc p (after - before).toNat))
   else pDec p (before - after).toNat
 
+/-- references held on the function-name strings of the harness object ("cb", "cbs<k>", "act"): one per pending
+    call_out (pending_call_t.function.s) and one per add_action sentence (sentence_t.function.s) -/
+def nameRefs (s : St) : Nat :=
+  ((List.range nCalls).filter (fun k => !isNumRoot s (rCall k))).length +
+  ((List.range nSents).filter (fun k => !isNumRoot s (rSent k))).length
+
 def renderState (noAllocd : Bool) (s : St) (p : PSt) : String :=
   let st := { s.stats with objects := s.stats.objects + p.anon }
   let pr := if p.pfreed then "x" else toString p.pref
@@ -145,7 +151,8 @@ def renderState (noAllocd : Bool) (s : St) (p : PSt) : String :=
   let sts := if p.pfreed then
       s!"{st.numArrays},{st.arrayBytes},{st.numMappings},{st.mapNodes},-,-,{st.objects}"
     else renderStats noAllocd st
-  s!"ok r:{renderRefs s.heap} st:{sts} p:{pr}"
+  let fr := if p.pfreed then "-" else toString (nameRefs s)
+  s!"ok r:{renderRefs s.heap} st:{sts} p:{pr} f:{fr}"
 
 def applies : Op → Bool
   | .newobj _ => true
